@@ -57,7 +57,6 @@ class TetrisH(Harness):
     INVALID = "terminate"
     TIME_LIMIT = True
     MULTI_DISCRETE = True
-    REF_SPLIT = ("grid_padded",)   # C09: one obligation per grid row
     REF_DRAWS = True          # C09: the reference reads the freshly drawn next piece from S' (shared stub draw)
     SCORES = (0.0, 40.0, 80.0, 100.0, 140.0, 300.0, 1200.0)   # declared finite domain of the `score` accumulator
 
@@ -124,7 +123,7 @@ class TetrisH(Harness):
               ("no complete row is left on the board", all_([any_([g[r, c] == 0 for c in range(C_)]) for r in range(R_)])),
               ("tetromino_index in [0, 6]", (idx >= 0) & (idx <= 6)),
               ("new_tetromino is rotation 0 of tetromino_index", X.eq_arr(vs(st.new_tetromino), self._piece_int(idx, 0))),
-              ("step_count in [0, time_limit]", (sc >= 0) & (sc <= self.T)),
+              ("step_count in [0, time_limit-1] (every non-terminal state; = the domain of sym_state)", (sc >= 0) & (sc < self.T)),
               ("cached action_mask == mask rule", X.eq_arr(vs(st.action_mask), self.mask_rule(st)))]
         return ob
 
